@@ -194,9 +194,15 @@ def c10(m, tier):
             rules_decl.rule_valsem(m), rules_ts.rule_shift_width(m)]
 
 
+def _names(m):
+    r = rules_io.rule_name_table(m)
+    r.require_sites(10, 'name-table stores')
+    return r
+
+
 def c13(m, tier):
     return [rules_io.rule_schema_text(m), rules_io.rule_tokeniser_schema(m), rules_io.rule_open(m), rules_io.rule_grow(m, 'text'),
-            dropped_cells_result(m, {'io.text'}), only_functions(rules_decl.rule_pure(m), ['io::'])]
+            dropped_cells_result(m, {'io.text'}), only_functions(rules_decl.rule_pure(m), ['io::']), _names(m)]
 
 
 def c14(m, tier):
@@ -640,9 +646,9 @@ ADDENDA = {
            'hand-written special members of the returned graph are member-wise (D-VALSEM).',
     'C11': 'Also decided: the distances start at the documented sentinel, wrappers forward their vertex arguments in order (F-FWD). No result is returned before the source has its distance; no neighbour is skipped on loop-carried state. The call graph of the library is acyclic (D-REC).',
     'C12': 'Also decided: the entry removed from the queue is the vertex scanned (F-HEAP.top), the worklist initially holds the '
-           'source only, an associative container with unique keys is not used as the queue. No neighbour is skipped on a condition that depends on earlier iterations (scan-all).',
+           'source only, an associative container with unique keys is not used as the queue. No neighbour is skipped on a condition that depends on earlier iterations (scan-all). A scan skipped for vertices marked in a closed set (lazy deletion) is accepted only when F-HEAP establishes minimum-first removal for the same function; otherwise it is a violation of the label-correcting premise (S-LC closed-set).',
     'C13': 'Also decided: the line loop ends on the failure of std::getline (not on eof), writers that walk the neighbour lists '
-           'keep every edge of a directed graph. std::getline reads from the stream itself (no std::ws before the comment test). Callables handed to the loaders are taken by value (a shared default mapper would keep its name table between calls).',
+           'keep every edge of a directed graph. std::getline reads from the stream itself (no std::ws before the comment test). Callables handed to the loaders are taken by value (a shared default mapper would keep its name table between calls). No store into the name table depends on a growth test `index >= size`, in the loader or in a lambda defined in it (F-IO.NAMES): names[index(x)] = x for every mapper, not only the first-appearance one.',
     'C14': 'Also decided: reads are checked and an end-of-file look-ahead is compared as an int (F-IO.READ), the stream is opened '
            'on the caller\'s file name itself and on every path (F-IO.OPEN), writers that walk the neighbour lists write each edge '
            'once per storage family. The alias VertexIndex is a 32-bit unsigned integer on this target (F-IO.WIDTH).',
